@@ -3,6 +3,9 @@
 package scen
 
 import (
+	"runtime"
+	"time"
+
 	"github.com/openacid/low/verifhook"
 
 	"verifsim/engine"
@@ -37,7 +40,24 @@ func setSimHooks(sch *engine.Sched, stride int) {
 			}
 		}
 	}
-	verifhook.B = func() { sch.Current().Block() }
+	var fruitlessSince time.Time
+	verifhook.B = func() {
+		if sch.Current().Block() {
+			fruitlessSince = time.Time{}
+			return
+		}
+		// No other task can run. What the task waits for may be held by a
+		// goroutine that is NOT a task (a finalizer of the code under test): give
+		// the Go runtime a chance; only when nothing has changed for 10 s of real
+		// time is it a deadlock (the clock bounds patience, like the watchdogs; it
+		// decides nothing else).
+		if fruitlessSince.IsZero() {
+			fruitlessSince = time.Now()
+		} else if time.Since(fruitlessSince) > 10*time.Second {
+			sch.Current().GiveUp()
+		}
+		runtime.Gosched()
+	}
 	verifhook.G = func(f func()) {
 		sch.SpawnLive(func(tk *engine.Task) {
 			enablePanicOnFault()
